@@ -401,10 +401,10 @@ contract(
     ensures=lambda self, connection, reason, ghost, old: [
         ghost.dc == old.ghost.dc + 1,
         ghost.sent == old.ghost.sent + 1,
-        ghost.dc_handle == connection.handle and ghost.dc_reason == reason and ghost.dc_status == 0,
-        not mhas(self.le_connections, connection.peer_address),
-        others_unchanged(self.le_connections, old.self.le_connections, connection.peer_address),
-        no_new_keys(self.le_connections, old.self.le_connections, connection.peer_address),
+        ghost.dc_handle == old.connection.handle and ghost.dc_reason == reason and ghost.dc_status == 0,
+        not mhas(self.le_connections, old.connection.peer_address),
+        others_unchanged(self.le_connections, old.self.le_connections, old.connection.peer_address),
+        no_new_keys(self.le_connections, old.self.le_connections, old.connection.peer_address),
     ] + tables_inv_post(self, old.self),
     ensures_names=['one-disconnection-event', 'nothing-else-sent', 'event-names-the-connection', 'entry-removed', 'other-entries-untouched', 'no-entry-added'] + INV_POST_NAMES,
     modifies=['self.le_connections', 'ghost.sent', 'ghost.dc', 'ghost.dc_status', 'ghost.dc_handle', 'ghost.dc_reason'],
@@ -1355,4 +1355,183 @@ contract(
     modifies=['self.peripheral_cis_links'] + SEND_MOD,
     uses=['bumble.controller:Controller.allocate_connection_handle'],
     native_setup=nat_fix,
+)
+
+
+# ===========================================================================
+# look-ups by handle, and the disconnection of an LE connection by either side
+# ===========================================================================
+def find_post(tables):
+    """res is None only if no entry of the tables has that handle; otherwise res is an entry with that handle"""
+
+    def post(self, handle, res):
+        nobody = True
+        for t in tables:
+            m = getattr(self, t)
+            nobody = nobody and all_keys(m, lambda k: h_of(m, k) != handle)
+        return [implies(res is None, nobody), res is None or res.handle == handle]
+
+    return post
+
+
+def seen_inv(table):
+    def inv(self, handle, _seen):
+        m = getattr(self, table)
+        return [all_keys(_seen, lambda k: h_of(m, k) != handle)]
+
+    return inv
+
+
+for _fn, _table in (('find_le_connection_by_handle', 'le_connections'), ('find_classic_connection_by_handle', 'classic_connections'), ('find_classic_sco_link_by_handle', 'sco_links')):
+    contract(
+        f'bumble.controller:Controller.{_fn}',
+        prop='C06',
+        params=dict(self=C, handle=Int),
+        ensures=find_post([_table]),
+        ensures_names=['none-only-if-no-entry-has-the-handle', 'an-entry-with-that-handle'],
+        invariants={0: seen_inv(_table)},
+        modifies=[],
+        native_setup=nat_fix,
+    )
+
+contract(
+    'bumble.controller:Controller.find_connection_by_handle',
+    prop='C06',
+    params=dict(self=C, handle=Int),
+    ensures=find_post(['le_connections', 'classic_connections']),
+    ensures_names=['none-only-if-no-entry-has-the-handle', 'an-entry-with-that-handle'],
+    invariants={0: lambda self, handle, _seen0, _seen1: [all_keys(_seen0, lambda k: h_of(self.le_connections, k) != handle), all_keys(_seen1, lambda k: h_of(self.classic_connections, k) != handle)]},
+    modifies=[],
+    native_setup=nat_fix,
+)
+
+TERMINATE = 'bumble.ll:TerminateInd'
+model(TERMINATE, fields=dict(error_code=IntRange(0, 255)))
+
+
+def le_keyed_by_peer(self):
+    """(part of the table invariant) every LE connection is stored under its peer address"""
+    return [all_keys(self.le_connections, lambda k: mget(self.le_connections, k, 'peer_address') == k)]
+
+
+DC_MOD = ['self.le_connections', 'ghost.sent', 'ghost.dc', 'ghost.dc_status', 'ghost.dc_handle', 'ghost.dc_reason']
+
+# the peer's LL_TERMINATE_IND: the connection to the sender is reported as disconnected, with the peer's reason
+contract(
+    'bumble.controller:Controller.on_ll_control_pdu',
+    key='bumble.controller:Controller.on_ll_control_pdu@terminate',
+    prop='C06',
+    params=dict(self=C, sender_address=ADDR, packet=Inst(TERMINATE)),
+    ghost=SEND_GHOST,
+    requires=le_keyed_by_peer,
+    ensures=lambda self, sender_address, packet, ghost, old: [
+        ghost.dc == old.ghost.dc + (1 if mhas(old.self.le_connections, sender_address) else 0) and ghost.sent - old.ghost.sent == ghost.dc - old.ghost.dc,
+        implies(mhas(old.self.le_connections, sender_address), ghost.dc_handle == h_of(old.self.le_connections, sender_address) and ghost.dc_reason == packet.error_code and ghost.dc_status == 0),
+        not mhas(self.le_connections, sender_address),
+        others_unchanged(self.le_connections, old.self.le_connections, sender_address),
+        no_new_keys(self.le_connections, old.self.le_connections, sender_address),
+    ],
+    ensures_names=['disconnection-event-iff-connected-to-the-sender', 'event-names-that-connection-and-the-peers-reason', 'entry-removed', 'other-entries-untouched', 'no-entry-added'],
+    modifies=DC_MOD,
+    uses=['bumble.controller:Controller.on_le_disconnected'],
+    native_setup=nat_fix,
+)
+
+
+# ---------------------------------------------------------------------------
+# on_hci_disconnect_command for the handle of an LE connection: the peer is told (LL_TERMINATE_IND from the own address
+# of that connection to its peer address) and the own host gets the Disconnection Complete event
+# ---------------------------------------------------------------------------
+# callee views of the look-ups by handle (proved above on the tables): the entry found is handed out as a detached
+# Connection object with the columns of the table entry (on_hci_disconnect_command only reads it)
+DISC_CMD = 'bumble.hci:HCI_Disconnect_Command#c06'
+model(DISC_CMD, fields=dict(connection_handle=IntRange(0, 0xFFFF), reason=IntRange(0, 255), op_code=Const(int(hci.HCI_DISCONNECT_COMMAND))))
+# Controller.link is never None after __init__ (representation invariant proved under C03: `link or LocalLink()`, never reassigned)
+CTRL_DISC = ctrl_model('-disc', link=Inst('ghost:Link'))
+FOUND_CONN_GHOST = dict(found_conn=Opt(Inst(CONN_FULL)))
+
+
+def le_entry_view(self, handle, res):
+    le = self.le_connections
+    return [
+        implies(res is None, all_keys(le, lambda k: h_of(le, k) != handle)),
+        # (every controller.Connection is created with link=self.link, which is never None)
+        res is None or (res.handle == handle and mhas(le, res.peer_address) and h_of(le, res.peer_address) == handle
+                        and mget(le, res.peer_address, 'self_address') == res.self_address and res.transport == LE and res.link is not None),
+    ]
+
+
+contract('bumble.controller:Controller.find_le_connection_by_handle', key='bumble.controller:Controller.find_le_connection_by_handle@callee',
+         params=dict(self=Inst(CTRL_DISC), handle=Int), ghost=FOUND_CONN_GHOST, ensures=le_entry_view, result=lambda ghost: ghost.found_conn, modifies=[])
+contract('bumble.controller:Controller.find_classic_connection_by_handle', key='bumble.controller:Controller.find_classic_connection_by_handle@callee',
+         params=dict(self=Inst(CTRL_DISC), handle=Int),
+         ensures=lambda self, handle, res: [implies(res is None, all_keys(self.classic_connections, lambda k: h_of(self.classic_connections, k) != handle)),
+                                            res is None or any_key(self.classic_connections, lambda k: h_of(self.classic_connections, k) == handle)],
+         returns=Opt(Opaque('classic-connection')), modifies=[])
+contract('bumble.controller:Controller.find_connection_by_handle', key='bumble.controller:Controller.find_connection_by_handle@callee',
+         params=dict(self=Inst(CTRL_DISC), handle=Int),
+         ensures=lambda self, handle, res: [implies(res is None, all_keys(self.le_connections, lambda k: h_of(self.le_connections, k) != handle)
+                                                    and all_keys(self.classic_connections, lambda k: h_of(self.classic_connections, k) != handle))],
+         returns=Opt(Opaque('connection')), modifies=[])
+contract('bumble.controller:Controller.find_classic_sco_link_by_handle', key='bumble.controller:Controller.find_classic_sco_link_by_handle@callee',
+         params=dict(self=Inst(CTRL_DISC), handle=Int),
+         ensures=lambda self, handle, res: [res is None or any_key(self.sco_links, lambda k: h_of(self.sco_links, k) == handle)],
+         returns=Opt(Opaque('sco-link')), modifies=[])
+
+
+# callee view of Connection.send_ll_control_pdu (proved above): the PDU object itself is not tracked here
+contract(
+    'bumble.controller:Connection.send_ll_control_pdu',
+    key='bumble.controller:Connection.send_ll_control_pdu@callee',
+    params=dict(self=Inst(CONN_FULL), packet=Any),
+    ghost=dict(tx=Int, tx_source=ADDR, tx_destination=ADDR),
+    ensures=lambda self, ghost, old: [
+        ghost.tx == old.ghost.tx + (1 if self.link is not None else 0),
+        implies(self.link is not None, ghost.tx_source == self.self_address and ghost.tx_destination == self.peer_address),
+    ],
+    modifies=['ghost.tx', 'ghost.tx_source', 'ghost.tx_destination'],
+)
+
+
+def disconnect_le_ensures(self, command, ghost, old):
+    k = ghost.k
+    le, le0 = self.le_connections, old.self.le_connections
+    return [
+        # the peer is told once, from the own address of that connection to its peer address (the key the peer stored it under)
+        ghost.tx == old.ghost.tx + 1,
+        ghost.tx_source == mget(le0, k, 'self_address') and ghost.tx_destination == k,
+        # the own host gets the Disconnection Complete event for that handle
+        ghost.dc == old.ghost.dc + 1 and ghost.dc_handle == command.connection_handle and ghost.dc_reason == command.reason and ghost.dc_status == 0,
+        # and the entry is gone, the others stay
+        not mhas(le, k) and others_unchanged(le, le0, k) and no_new_keys(le, le0, k),
+    ]
+
+
+def nat_disc(env):
+    nat_fix(env)
+    g, c = env['ghost'], env['self']
+    if getattr(g, 'found_conn', None) is not None and g.found_conn.peer_address in c.le_connections:
+        # the detached view of the entry is, natively, the entry itself
+        rec = c.le_connections[g.found_conn.peer_address]
+        rec.link = g.found_conn.link
+        rec.controller = c
+
+
+contract(
+    'bumble.controller:Controller.on_hci_disconnect_command',
+    key='bumble.controller:Controller.on_hci_disconnect_command@le',
+    prop='C06',
+    params=dict(self=Inst(CTRL_DISC), command=Inst(DISC_CMD)),
+    ghost=dict(SEND_GHOST, k=ADDR, **TX_GHOST, **FOUND_CONN_GHOST),
+    # the command names the handle of the LE connection stored under ghost.k; the table invariant holds
+    requires=lambda self, command, ghost: tables_inv(self) + [mhas(self.le_connections, ghost.k), h_of(self.le_connections, ghost.k) == command.connection_handle],
+    ensures=disconnect_le_ensures,
+    ensures_names=['terminate-ind-handed-to-the-link-once', 'from-the-own-address-to-the-peer-address-of-that-connection', 'disconnection-complete-for-that-handle', 'entry-removed-others-stay'],
+    modifies=DC_MOD + TX_MOD,
+    uses=['bumble.controller:Controller.find_le_connection_by_handle@callee', 'bumble.controller:Controller.find_classic_connection_by_handle@callee',
+          'bumble.controller:Controller.find_connection_by_handle@callee', 'bumble.controller:Controller.find_classic_sco_link_by_handle@callee',
+          'bumble.controller:Controller.on_le_disconnected', 'bumble.controller:Connection.send_ll_control_pdu@callee'],
+    inline=['Controller.find_iso_link_by_handle', 'Controller._send_hci_command_status'],
+    feas_timeout_ms=400,
+    native_setup=nat_disc,
 )
